@@ -50,6 +50,12 @@ def contracts():
     # what counts as a child is decided by the default 'keys' / 'iterate' / 'get' registrations and their order (shared with C13)
     from contracts import C13
     cs += common.shared(C13, ['core.TargetRegistry._register_default_types'])
+    from contracts import C08 as _c08, X_ctor as _xc
+    cs += common.shared(C13, ['core.TargetRegistry.get_handler', 'core.TargetRegistry.get_type_map', 'core.TargetRegistry._get_closest_type', 'core.TargetRegistry.register'])
+    cs += common.shared(_c08, ['core.arg_val', 'core._ArgValuator.mode'])
+    cs += common.shared(C11, ['core._assign_op'])
+    cs += common.shared(extra, ['mutation.Assign.__init__', 'mutation.Delete.__init__'])
+    cs += common.shared(_xc, ['core.Val.__init__'])
     return cs
 
 
